@@ -175,7 +175,7 @@ def _lin(a, g1, b, g2):
     return out
 
 
-def _cmp(ga, gb):
+def _cmp(ga, gb, floor_abs=0.0):
     worst = 0.0
     # the sensitivity of one input may cancel to zero while its summands are as large as the other inputs' sensitivities (a scalar
     # input of MathGeneral: sum_i w_i df_i = 0 exactly for both seeds, 1e-16 of the summands for their combination): an input is
@@ -191,7 +191,7 @@ def _cmp(ga, gb):
             continue
         xd = np.zeros_like(todense(y)) if x is None else todense(x)
         yd = np.zeros_like(todense(x)) if y is None else todense(y)
-        worst = max(worst, relerr(xd, yd, floor=max(1e-300, 1e-5 * joint)))
+        worst = max(worst, relerr(xd, yd, floor=max(1e-300, 1e-5 * joint, floor_abs)))
     return worst
 
 
@@ -338,17 +338,32 @@ def run_case(case, ctx):
         xd = todense(x)
         w12.append(a * xd + (b * todense(y) if y is not None else 0))
     g12 = backprop(w12)
-    e_lin = _cmp(g12, _lin(a, g1, b, g2))
+    # natural size of a sensitivity: |seed| |output| / |input| (exact for modules that are homogeneous in their inputs); a sensitivity
+    # whose summands cancel to 1e-16 of that (the thermal load of a single element against a rigid-body seed) is rounding noise, and is
+    # compared on that scale: absolute deviations above 1e-14 of the natural size still count
+    def _amax(v):
+        m_ = 0.0
+        for z in v:
+            if z is not None:
+                zd = np.asarray(todense(z))
+                if zd.size and zd.dtype.kind in "fciu" and np.all(np.isfinite(zd)):
+                    m_ = max(m_, float(np.max(np.abs(zd))))
+        return m_
+    xmax_, ymax_ = _amax([s_.state for s_ in mod.sig_in]), _amax(y0)
+    wmax_ = max(abs(a) * _amax(w1), abs(b) * _amax(w2), _amax(w12))
+    fl12 = 1e-5 * wmax_ * ymax_ / xmax_ if xmax_ > 0 else 0.0
+    fl1 = 1e-5 * _amax(w1) * ymax_ / xmax_ if xmax_ > 0 else 0.0
+    e_lin = _cmp(g12, _lin(a, g1, b, g2), fl12)
     ctx.count("linearity_checks")
     if not e_lin <= 1e-9:
         raise Violation(f"not-linear-in-seed/{cfg.name}", key=cfg.key, err=e_lin, a=a, b=b)
     # same module evaluated again with the same seed must reproduce g1 (the first backprop may not have disturbed anything)
     g1b = backprop([copy.deepcopy(w) for w in w1])
-    e_rep = _cmp(g1b, g1)
+    e_rep = _cmp(g1b, g1, fl1)
     if not e_rep <= 1e-9:
         raise Violation(f"repeated-backprop-after-reset-differs/{cfg.name}", key=cfg.key, err=e_rep)
     gt = backprop([copy.deepcopy(w) for w in w1], times=2)
-    e_tw = _cmp(gt, _lin(2.0, g1, 0.0, g1))
+    e_tw = _cmp(gt, _lin(2.0, g1, 0.0, g1), fl1)
     ctx.count("twice_checks")
     if not e_tw <= 1e-9:
         raise Violation(f"second-sensitivity-call-adds-different-contribution/{cfg.name}", key=cfg.key, err=e_tw)
